@@ -1,6 +1,6 @@
 (* C14, tag level: every tag's marshal output is "#TAG:" ++ an attribute list ++ "\n", and
    the tag's unmarshal reads that attribute list back (for values satisfying the documented
-   requirements, under the oracle envelope). EXT-X-SERVER-CONTROL is read back as its F4 image. *)
+   requirements, under the oracle envelope). *)
 From Coq Require Import List ZArith Bool String Ascii Lia.
 From GoHls Require Import Model.PlaylistBase Model.Playlist Model.PlaylistSpec
   Proofs.PlaylistStr Proofs.PlaylistNum Proofs.PlaylistAttrs.
@@ -386,31 +386,24 @@ Proof.
       end; reflexivity.
 Qed.
 
-(* ---------- EXT-X-SERVER-CONTROL (finding F4 (c)) ---------- *)
-Definition sc_items (t : MediaServerControl) : list (string * aval) :=
+(* ---------- EXT-X-SERVER-CONTROL ---------- *)
+Definition sc_attrs (t : MediaServerControl) : list (string * aval) :=
   opt_list (sc_canblockreload t) ("CAN-BLOCK-RELOAD", AU "YES")
   ++ match sc_partholdback t with Some d => [("PART-HOLD-BACK", AU (fmt_dur orc d))] | None => [] end
   ++ match sc_canskipuntil t with Some d => [("CAN-SKIP-UNTIL", AU (fmt_dur orc d))] | None => [] end.
 
-(* what Marshal prints: without CAN-BLOCK-RELOAD the list starts with a comma, which the
-   tokenizer takes as part of the first attribute's name *)
-Definition sc_attrs (t : MediaServerControl) : list (string * aval) :=
-  if sc_canblockreload t then sc_items t
-  else match sc_items t with
-       | [] => []
-       | (k, v) :: tl => (String "," k, v) :: tl
-       end.
-
+(* strings.Join over the appended attributes is the rendered attribute list *)
 Lemma server_control_marshal_render t :
   server_control_marshal orc t = "#EXT-X-SERVER-CONTROL:" ++ render_attrs (sc_attrs t) ++ lf.
 Proof.
-  unfold server_control_marshal, sc_attrs, sc_items, opt_list.
-  destruct (sc_canblockreload t), (sc_partholdback t), (sc_canskipuntil t); norm_str; reflexivity.
+  unfold server_control_marshal, sc_attrs, opt_list.
+  destruct (sc_canblockreload t), (sc_partholdback t), (sc_canskipuntil t);
+    cbn [List.app join]; norm_str; reflexivity.
 Qed.
 
 Lemma sc_attrs_ok t : wf_server_control t = true -> forallb attr_ok2 (sc_attrs t) = true.
 Proof.
-  unfold wf_server_control. intros H. split_and H. unfold sc_attrs, sc_items, opt_list.
+  unfold wf_server_control. intros H. split_and H. unfold sc_attrs, opt_list.
   destruct (sc_canblockreload t), (sc_partholdback t) as [d1|], (sc_canskipuntil t) as [d2|];
     cbn [app forallb opt_ok] in *;
     repeat match goal with
@@ -422,12 +415,12 @@ Qed.
 
 Lemma server_control_roundtrip t : wf_server_control t = true ->
   exists t', server_control_unmarshal orc (render_attrs (sc_attrs t)) = Ok t'
-             /\ sc_eqvb (f4_server_control t) t' = true
-             /\ (sc_canblockreload t = true -> server_control_marshal orc t' = server_control_marshal orc t).
+             /\ sc_eqvb t t' = true
+             /\ server_control_marshal orc t' = server_control_marshal orc t.
 Proof.
   intros Hwf. pose proof (sc_attrs_ok t Hwf) as Hok. unfold wf_server_control in Hwf. split_and Hwf.
   unfold server_control_unmarshal. rewrite attrs_unmarshal_render by (apply attr_ok2_ok, Hok).
-  unfold sc_attrs, sc_items, opt_list, f4_server_control in *.
+  unfold sc_attrs, opt_list in *.
   destruct t as [cbr phb csu]; cbn [sc_canblockreload sc_partholdback sc_canskipuntil] in *.
   destruct cbr, phb as [d1|], csu as [d2|]; cbn [opt_ok] in *;
     try (assert (F1 : dur_any d1 = true) by assumption; destruct (dur_facts _ F1) as (d1' & Hp1 & Hc1 & Hf1 & _ & _));
@@ -435,7 +428,7 @@ Proof.
     cbn; unfold duration_unmarshal; rewrite ?Hp1, ?Hp2; cbn; rewrite ?Hp1, ?Hp2; cbn;
     eexists; (split; [reflexivity|]); unfold sc_eqvb, server_control_marshal;
     cbn [sc_canblockreload sc_partholdback sc_canskipuntil opt_eqvb Bool.eqb andb sc0];
-    rewrite ?Hc1, ?Hc2, ?Hf1, ?Hf2; auto; split; auto; discriminate.
+    rewrite ?Hc1, ?Hc2, ?Hf1, ?Hf2; auto.
 Qed.
 
 End WithOracles.
